@@ -127,6 +127,8 @@ public:
 			Allocator allocator = Allocator());
 	hash_map(const hash_map &) = delete;
 
+	hash_map &operator= (const hash_map &) = delete;
+
 	~hash_map();
 
 	void insert(const Key &key, const Value &value);
